@@ -53,7 +53,7 @@ def context_tags(m, pos, message=''):
         prev = n
         n = n.parent
     tags.append(scope or 'at-module-level')
-    if '__future__' in message:
+    if 'from __future__ imports' in message or 'future feature' in message:
         first = m.children[0]
         if first.type == 'simple_stmt':
             first = first.children[0]
@@ -127,8 +127,14 @@ def false_issue_signature(m, issue, vi):
         dec = ['in-fstring'] + (['v>=3.12'] if vi >= (3, 12) else ['v<3.12'])
         if 'in-format-spec' in tags:
             dec.append('in-format-spec')
-    elif '__future__' in msg:
+    elif 'from __future__ imports' in msg or 'future feature' in msg:
         dec = [t for t in tags if t.startswith('first-statement-is-')]
+        leaf = leaf_starting_at(m, issue.start_pos)
+        imp = leaf if leaf is None or leaf.type == 'import_from' else leaf.search_ancestor('import_from')
+        if imp is not None and getattr(imp, 'level', 0) > 0:
+            # `from .__future__ import x` is an ordinary relative import for CPython >= 3.13
+            key = 'SyntaxError: __future__ statement rule applied'
+            dec = ['relative-import-of-a-module-named-__future__']
     elif 'nonlocal' in msg or 'global' in msg:
         dec = []
         mm = re.search(r"'([^']*)'", msg)
@@ -143,12 +149,10 @@ def false_issue_signature(m, issue, vi):
                 if l.type == 'name' and l.value == name:
                     p = l.parent
                     imp = l.search_ancestor('import_name', 'import_from')
-                    if p.type == 'dotted_name' and p.children[0] is not l and imp is not None and imp.type == 'import_name':
-                        kinds.add('earlier-use-is-dotted-import-tail')
-                    elif imp is not None and imp.type == 'import_from' and _in_from_module_part(l):
-                        kinds.add('earlier-use-is-from-module-part')
-                    elif imp is not None:
-                        kinds.add('earlier-use-is-import-binding')
+                    if imp is not None:
+                        # one root cause: every name inside an import statement (dotted tail, module part of a
+                        # from-import, bound name/alias) is recorded as a use/assignment of that name
+                        kinds.add('earlier-use-is-name-in-import-statement')
                     elif p.type == 'argument' and p.children[0] is l and len(p.children) > 1 and p.children[1] == '=':
                         kinds.add('earlier-use-is-keyword-argument-name')
                     elif p.type == 'trailer':
@@ -157,6 +161,7 @@ def false_issue_signature(m, issue, vi):
                         kinds.add('earlier-use-is-reference')
                 l = l.get_next_leaf()
             dec += sorted(kinds)
+            key = "SyntaxError: name '_' is used or assigned before global/nonlocal declaration"
         elif name and 'no binding' in msg and name != '__class__':
             # is the name bound in an enclosing function only by a def/class statement?
             leaf = leaf_starting_at(m, issue.start_pos)
@@ -173,7 +178,7 @@ def false_issue_signature(m, issue, vi):
                         if n.name.value == name and depth >= 1 and n.parent is not None and n.search_ancestor('funcdef') is not None:
                             found = True
                 n = n.parent
-            dec += scope + (['bound-by-def-or-class-statement-in-enclosing-function'] if found else [])
+            dec += ['bound-by-def-or-class-statement-in-enclosing-function'] if found else scope
         else:
             dec += scope
     else:
